@@ -78,6 +78,7 @@ def renderOut (a : Nat) : Out → Option String
   | .ev (.fxJoin g) => some s!"fx join {g}"
   | .ev (.fxReply k v ok) => some s!"fx reply {k} {v} {if ok then "Ok" else "NoPort"}"
   | .ev (.fxForget k ok) => some s!"fx forget {k} {if ok then "Ok" else "NoPort"}"
+  | .ev (.fxSpawn c loc) => some s!"fx spawnchild {c}{if loc then " local" else ""}"
   | .ev (.callRet k r) => some s!"call {k} {callResStr r}"
   | .ev (.waitRet w ready) => some s!"wait {w} {if ready then "Ready" else "Pending"}"
   | .ev .instant => some "inst Ok"
@@ -143,6 +144,7 @@ def parseFx? (t : String) : Option Fx :=
   | ["join", g] => some (.joinGroup g)
   | ["reply", k, v] => do pure (.reply (← k.toNat?) (← v.toNat?))
   | ["forget", k] => k.toNat?.map .forget
+  | ["spawnchild", c] => c.toNat?.map .spawnChild
   | _ => none
 
 def parseTerm? (t : String) : Option Term :=
@@ -308,6 +310,13 @@ def noteEvents (tgt : Nat) (op : Op) (note : String) : Option (List (Nat × Ev))
   | ["fx", "join", g] => pure [(tgt, .fxJoin g)]
   | ["fx", "reply", k, v, x] => do pure [(tgt, .fxReply (← k.toNat?) (← v.toNat?) (x == "Ok"))]
   | ["fx", "forget", k, x] => do pure [(tgt, .fxForget (← k.toNat?) (x == "Ok"))]
+  -- a child spawned from inside a callback: the callback's own event, and the child's `instant` (+ flavour)
+  | ["fx", "spawnchild", c] => do
+    let c ← c.toNat?
+    pure [(tgt, .fxSpawn c false), (c, .instant)]
+  | ["fx", "spawnchild", c, "local"] => do
+    let c ← c.toNat?
+    pure [(tgt, .fxSpawn c true), (c, .isLocal), (c, .instant)]
   | ["call", k, r] => do
     let k ← k.toNat?
     let r ← parseCallRes? r
@@ -460,26 +469,39 @@ def step (which : Prop3) (st : St) (opLine impl : String) : St × StepOut :=
     -- feature `monitors`: all copies of one event sent to monitors in this op are ONE `monFan` event of
     -- the actor the event is about (registered set from the harness's ops, observed targets sorted, with
     -- repetitions), placed where the first copy was sent
+    let mdPairs : List (Nat × Nat) := (fields.drop 4).foldl (fun acc f =>
+      match f.splitOn "=" with
+      | ["md", v] => acc ++ (v.splitOn ",").filterMap fun x =>
+          match x.splitOn ":" with
+          | [a, m] => do pure (← a.toNat?, ← m.toNat?)
+          | _ => none
+      | _ => acc) []
     let monAll : List (Nat × SupEv) := notes.filterMap parseMonEmit?
-    let (evsR, bad, _) := notes.foldl (fun (acc : List (Nat × Ev) × Bool × List SupEv) n =>
+    -- (the registered set is kept current inside the op: a monitor whose copy could not be delivered — field
+    -- `md=` — is dropped right after that fan-out)
+    let (evsR, bad, _, regNow) := notes.foldl
+      (fun (acc : List (Nat × Ev) × Bool × List SupEv × List (Nat × List Nat)) n =>
+      let (evs0, bad0, seen, reg) := acc
       if n.startsWith "monemit " then
         match parseMonEmit? n with
         | some (_, e) =>
-          if acc.2.2.contains e then acc
+          if seen.contains e then acc
           else
             let tg := sortNats ((monAll.filter (·.2 == e)).map (·.1))
-            (acc.1 ++ [(e.who, Ev.monFan (regOf st.monReg e.who) tg e)], acc.2.1, acc.2.2 ++ [e])
-        | none => (acc.1, true, acc.2.2)
+            let regA := regOf reg e.who
+            let reg' := regSet reg e.who (regA.filter fun m => !(tg.contains m && mdPairs.contains (e.who, m)))
+            (evs0 ++ [(e.who, Ev.monFan regA tg e)], bad0, seen ++ [e], reg')
+        | none => (evs0, true, seen, reg)
       else
         match noteEvents tgt op n with
-        | some l => (acc.1 ++ l, acc.2.1, acc.2.2)
-        | none => (acc.1, true, acc.2.2)) (pre, false, [])
+        | some l => (evs0 ++ l, bad0, seen, reg)
+        | none => (evs0, true, seen, reg)) (pre, false, [], st.monReg)
     -- a monitored actor whose task ended must have told its monitors: if no terminal copy was observed,
     -- the missing fan-out is put in front of the `join` (judged `c04.monitor-set`)
     let evsR : List (Nat × Ev) := evsR.foldl (fun acc (a, e) =>
       match e with
       | .join _ =>
-        let reg := regOf st.monReg a
+        let reg := regOf regNow a
         let seen := evsR.any fun (b, x) => b == a && (match x with | .monFan _ _ f => f.isTerminal | _ => false)
         if reg.isEmpty || seen then acc ++ [(a, e)]
         else acc ++ [(a, Ev.monFan reg [] (.terminated a false .none)), (a, e)]
@@ -568,13 +590,6 @@ def step (which : Prop3) (st : St) (opLine impl : String) : St × StepOut :=
         if notes.contains "nocell" || notes.contains "nomon" then st.monReg
         else regSet st.monReg a ((regOf st.monReg a).filter (· != m))
       | _ => st.monReg
-    let mdPairs : List (Nat × Nat) := (fields.drop 4).foldl (fun acc f =>
-      match f.splitOn "=" with
-      | ["md", v] => acc ++ (v.splitOn ",").filterMap fun x =>
-          match x.splitOn ":" with
-          | [a, m] => do pure (← a.toNat?, ← m.toNat?)
-          | _ => none
-      | _ => acc) []
     let monReg := mdPairs.foldl (fun r (a, m) => regSet r a ((regOf r a).filter (· != m))) monReg
     let tgtA : Option Actor := if op = .case then none else some (st.w.get tgt)
     let filled : Nat := match tgtA with
